@@ -376,6 +376,14 @@ def correspond(ctx, model):
     _mark("random-trees")
 
 
+def generate(ctx):
+    """translator: override table, dispatch ladders and derived-constructor arguments read from the working tree with `ast`
+    (harness/opalg_translate.py) against the tables of the model (one `decide` obligation)"""
+    import opalg_translate
+
+    return opalg_translate.adapter_generate(ctx)
+
+
 def findings(ctx, model):
     import opalg_stacks as S
 
